@@ -159,7 +159,7 @@ fn rule_for(prop: &str) -> &'static str {
         "C08" => "validation: class-S cases biased to past/present deadlines and zero periods through all request kinds (5 Scheduler methods, 4 EventSource action kinds, 4 Context methods); non-trivial = at least one request kind with both a rejected and an accepted request in the case. c08-race: 1-3 real threads issuing schedule_event requests (absolute = time()+d, relative d; 20-2000 per thread) while the driver executes 10-120 step / step_until calls with or without a periodic background; accepted requests fire exactly once at their deadline (relative: within [t_before+d, t_after+d]), rejected ones never, handlers never run at or before the time a call started at, time never decreases, step_until(d) ends exactly d later; non-trivial = >=50 requests, >=1 accepted and >=1 rejected absolute request, and the time advanced during at least one request; distinct = hash of the JSON case",
         "C09" => "class-S cases biased to keyed events and cancellations; non-trivial = a cancellation that took effect in the same time slice as the target's deadline, or a periodic series cancelled after >=1 occurrence; distinct = hash of the JSON case",
         "C10" => "periodic series (t0,p) with commensurable periods, two generated partitions of the horizon, closed-form t0+k*p oracle + partition independence + RefSim; non-trivial = >=3 instants where >=2 series coincide, or >=50 occurrences, or a step_until boundary exactly on an occurrence; distinct = hash of the JSON case",
-        "C18" => "class-S cases with a recording scripted clock (Synchronized / OutOfSync(lag) answers, tolerance none/0/tau); non-trivial = >=3 time-advancing steps AND a step_until final jump AND a lag answer on a step that has model work; distinct = hash of the JSON case",
+        "C18" => "class-S cases with a recording scripted clock (Synchronized / OutOfSync(lag) answers, tolerance none/0/tau); non-trivial = >=3 time-advancing steps AND a step_until final jump AND a lag answer on a step that has model work. c08-race (run for C18 with a recording clock): while 1-3 threads schedule through Scheduler handles, the arguments of synchronize() never decrease and every handler of a time t runs after a synchronize(t) of the same stepping call; distinct = hash of the JSON case",
         "C02" => "class-M cases: proptest-generated acyclic model graphs (2-6 scripted models, mailbox capacities 1-16, plain/map/filter_map connections, sub-models, init traffic) driven by process_event/process_query/process(action)/schedule+step; oracle = completed-knowledge vector clocks carried by every message (DESIGN Appendix B); non-trivial = a recipient processed two messages of different senders ordered through a chain AND a port operation was observed suspended (records of other models between its start and its end); distinct = hash of the JSON case",
         "C03" => "class-M cases; oracle = per-command multiset of handler invocations (model, kind, id, via, script, ttl) and sink contents == sequential expansion of the injected messages, both directions; non-trivial = a broadcast with >=2 accepting and >=1 filtering connections AND a suspended port operation; distinct = hash of the JSON case",
         "C04" => "class-M cases on ST (LIFO/FIFO/random picks) and MT (4, 8, 16 workers, seeded delays at executor protocol points); oracle = at every Ok return each begun handler has ended, handler/sink multisets == expansion (hence identical across executors), acyclic benches never stall; non-trivial = >=3 models active in one command AND a suspended port operation (MT: AND >=2 worker threads ran handlers); distinct = hash of the JSON case",
@@ -169,7 +169,7 @@ fn rule_for(prop: &str) -> &'static str {
         "C15" => "one model, 20-400 events at generated increments (1 ns .. 4.3 s, many carrying into the seconds; start 999_999_000 ns before a second boundary), 1-3 reader threads spinning on Scheduler::time() while the driver steps; oracle = every value read is a time the simulation had, a reader's values never decrease, the read made after the last step returns the final time, handlers read a valid time; non-trivial = a reader saw >=3 distinct times AND two consecutive observations differing in the seconds; distinct = hash of the JSON case",
         "C14" => "class-M cases with 0-6 repliers per requestor (plain/map/filter_map) and with connections added between commands through detached clones of the models' output ports; oracle = reply list of every query == (replier, reply id computed from the mapped request, via) in connection order, process_query reply, and handler multisets that include deliveries through clone-added connections; non-trivial = a query with >=2 repliers and >=1 filtered out, or a clone-added connection in a case with >2 handlers; distinct = hash of the JSON case",
         "C16" => "class-M hierarchical cases (sub-models to depth 3+, empty names, init scripts that send events and queries); oracle = exactly one init per model during SimInit::init, before any message of that model, never later; messages sent before the recipient's init are in the expansion multiset; Context::name() uses parent.child; non-trivial = sub-models present AND an init that sends to another model. c16-cyclic: Deadlock reports list stalled sub-models under their qualified names. c16-fault-names: class-F cases (panic / send to a dropped mailbox injected in hierarchies): the failure report names the failing model by its qualified name; non-trivial = the fault was attributed to a sub-model; distinct = hash of the JSON case",
-        "C17" => "c17-sink-api: generated write/read/drain/open/close sequences (1-80 ops, 3 writer clones, capacities 1-39) on EventBuffer and EventSlot against a VecDeque/Option model; non-trivial = buffer overflowed (and capacity>1 or a write while closed) / slot overwritten then read then empty. c17-sim: class-M cases, sink content per (model, output) must be in sending order; non-trivial = a sink holds >=2 sends of one output; distinct = hash of the JSON case",
+        "C17" => "c17-sink-api: generated write/read/drain/open/close sequences (1-80 ops, 3 writer clones, capacities 1-39) on EventBuffer and EventSlot against a VecDeque/Option model; non-trivial = buffer overflowed (and capacity>1 or a write while closed) / slot overwritten then read then empty. c17-sink-threads: 2-3 threads writing 1-1500 numbered events each through writer clones of one EventBuffer (capacity 1-39), optionally with a concurrent reader; the buffer never holds more than its capacity once no write is in flight, holds exactly min(capacity, writes) without reads, per-writer order, nothing invented; non-trivial = >=2 writers and an overflow. c17-sim: class-M cases, sink content per (model, output) must be in sending order; non-trivial = a sink holds >=2 sends of one output; distinct = hash of the JSON case",
         "C20" => "generated insert/pull/peek/extract sequences (1-400 ops, key alphabet 0..3 plus random keys) on the real PriorityQueue and IndexedPriorityQueue sources (compiled in with #[path]) against a linear reference (smallest key, then first inserted; extract only through the key issued for that entry); non-trivial = >=2 insertions of an already resident key AND (indexed) a stale key whose slab slot has been reused by a live entry / (plain) the queue ran empty; distinct = hash of the JSON case",
         "C11" => "class-F cases: an acyclic class-M bench plus one generated fault (panic x3 payload kinds in model/sub-model/init, send to a dropped mailbox from a model or a source, self-query deadlock, orphan mailbox, clock lag above tolerance at the k-th step, overrunning handler with a 250 ms timeout), 0-2 step_until-into-the-past commands, 1-6 calls after the fatal error; oracle = predicted error kind and attribution of every command from the expansion, Terminated/no panic/no handling of the injected message/time unchanged afterwards, all handlers run after a non-fatal error; non-trivial = a fatal fault was hit after init and >=2 further calls were made, or a command ran normally after a non-fatal error; distinct = hash of the JSON case",
         "C19" => "class-F cases with drop-counting tokens in every model, message, reply and scheduled event, dropped at a generated point (idle, stalled, failed, scheduled events pending); oracle = tokens created == tokens dropped after the drop, worker threads that ran handlers == worker threads exited, no handler record after the drop; non-trivial = >=5 tokens AND (dropped after a fatal error OR with scheduled events pending); distinct = hash of the JSON case",
@@ -225,6 +225,15 @@ fn run_property(prop: &'static str, tier: &str, seed: u64) -> i32 {
                 ctx.run(&RSub { mt: Some(4) }, n, 4);
                 core::TIME_SITES.store(false, std::sync::atomic::Ordering::SeqCst);
             }
+            if prop == "C18" {
+                // the clock protocol while other threads schedule through Scheduler handles
+                core::TIME_SITES.store(true, std::sync::atomic::Ordering::SeqCst);
+                let n = ctx.n(1500, 30_000);
+                ctx.run(&RSub { mt: None }, n, 4);
+                let n = ctx.n(150, 3_000);
+                ctx.run(&RSub { mt: Some(4) }, n, 4);
+                core::TIME_SITES.store(false, std::sync::atomic::Ordering::SeqCst);
+            }
             if prop == "C10" {
                 let n = ctx.n(40_000, 600_000);
                 ctx.run(&C10Sub { mt: None }, n, 16);
@@ -250,6 +259,8 @@ fn run_property(prop: &'static str, tier: &str, seed: u64) -> i32 {
             if prop == "C17" {
                 let n = ctx.n(80_000, 2_000_000);
                 ctx.run(&SinkSub, n, 16);
+                let n = ctx.n(3000, 60_000);
+                ctx.run(&SinkThrSub, n, 4);
             }
         }
         "C11" | "C19" => {
@@ -349,6 +360,9 @@ fn replay(path: &str) -> i32 {
         }
         if sub == "c12-queue-mpsc" {
             return replay_one(&QMpscSub, p, case, path);
+        }
+        if sub == "c17-sink-threads" {
+            return replay_one(&SinkThrSub, p, case, path);
         }
         if sub == "c17-sink-api" {
             return replay_one(&SinkSub, p, case, path);
